@@ -57,7 +57,7 @@ type c09Op struct {
 	Clear bool     `json:"clear,omitempty"`
 }
 
-var c09Kinds = []string{"set", "clear", "mutex", "int", "import", "importclear", "importvalue", "importroaring", "store", "clearrow", "keyed"}
+var c09Kinds = []string{"set", "clear", "mutex", "int", "import", "importclear", "importvalue", "importroaring", "store", "clearrow", "keyed", "bigimport"}
 
 const c09SW = pilosa.ShardWidth
 
@@ -86,6 +86,13 @@ func c09GenHistory(rng *vk.Rand, n int) (ops []c09Op, maxOpN int) {
 				op.Cols = append(op.Cols, sh*c09SW+uint64(rng.Intn(40)))
 			}
 			op.Col = sh * c09SW
+		case "bigimport":
+			// one bulk import that changes several thousand bits of one fragment (more than any
+			// internal batching unit): Col = first column, Val = number of consecutive columns
+			op.Field, op.Row = "s", uint64(rng.Intn(4))
+			op.Clear = rng.Chance(1, 4)
+			op.Col = uint64(rng.Intn(2))*c09SW + uint64(100+rng.Intn(50))
+			op.Val = int64(4097 + rng.Intn(6000))
 		case "importvalue":
 			op.Field = "v"
 			sh := uint64(rng.Intn(2))
@@ -190,6 +197,14 @@ func (m *c09Model) apply(op c09Op) {
 				m.setBit(op.Field, op.Rows[i], op.Cols[i])
 			}
 		}
+	case "bigimport":
+		for i := int64(0); i < op.Val; i++ {
+			if op.Clear {
+				delete(m.Set["s"][op.Row], op.Col+uint64(i))
+			} else {
+				m.setBit("s", op.Row, op.Col+uint64(i))
+			}
+		}
 	case "importvalue":
 		for i := range op.Cols {
 			m.Int[op.Cols[i]] = op.Vals[i]
@@ -245,6 +260,16 @@ func c09Exec(m *server.Command, op c09Op) error {
 	case "import", "importclear":
 		req := &pilosa.ImportRequest{Index: "i", Field: "s", Shard: op.Col / c09SW,
 			RowIDs: append([]uint64(nil), op.Rows...), ColumnIDs: append([]uint64(nil), op.Cols...)}
+		if op.Clear {
+			return m.API.Import(ctx, req, pilosa.OptImportOptionsClear(true))
+		}
+		return m.API.Import(ctx, req)
+	case "bigimport":
+		req := &pilosa.ImportRequest{Index: "i", Field: "s", Shard: op.Col / c09SW}
+		for i := int64(0); i < op.Val; i++ {
+			req.RowIDs = append(req.RowIDs, op.Row)
+			req.ColumnIDs = append(req.ColumnIDs, op.Col+uint64(i))
+		}
 		if op.Clear {
 			return m.API.Import(ctx, req, pilosa.OptImportOptionsClear(true))
 		}
@@ -851,7 +876,11 @@ func TestVerifC09Verify(t *testing.T) {
 							}
 						}
 						sort.Slice(cs, func(i, j int) bool { return cs[i] < cs[j] })
-						fmt.Fprintf(&sb, "%d:%v ", row, cs)
+						if len(cs) > 48 {
+							fmt.Fprintf(&sb, "%d:[%d cols %d..%d h=%x] ", row, len(cs), cs[0], cs[len(cs)-1], vk.HashU64s(cs))
+						} else {
+							fmt.Fprintf(&sb, "%d:%v ", row, cs)
+						}
 					}
 					return sb.String()
 				}
@@ -867,6 +896,11 @@ func TestVerifC09Verify(t *testing.T) {
 						touched := map[uint64]bool{}
 						if len(op.Cols) == 0 {
 							touched[op.Col] = true
+						}
+						if op.Kind == "bigimport" {
+							for k := int64(0); k < op.Val; k++ {
+								touched[op.Col+uint64(k)] = true
+							}
 						}
 						for _, c := range op.Cols {
 							touched[c] = true
